@@ -334,16 +334,20 @@ func Last[T any](ctx context.Context, s Stream[T], n int) ([]T, error) {
 		} else if err != nil {
 			return nil, err
 		}
-		buf[i%n] = item
+		if n > 0 {
+			buf[i%n] = item
+		}
 		i++
 	}
 	if i < n {
 		return buf[:i], nil
 	}
 	out := make([]T, n)
-	idx := i % n
-	copy(out, buf[idx:])
-	copy(out[n-idx:], buf[:idx])
+	if n > 0 {
+		idx := i % n
+		copy(out, buf[idx:])
+		copy(out[n-idx:], buf[:idx])
+	}
 	return out, nil
 }
 
